@@ -141,7 +141,12 @@ def work(args):
                     n = run_native(hmod, shape, vals, e.choices)
                     sym_obs = core.to_concrete([o for _, o in e.obs], m)
                     nat_obs = core.plain([o for _, o in n.obs])
-                    if n.crash or n.failures or n.diverged or sym_obs != nat_obs:
+                    if n.failures and not n.crash:
+                        # the real code violates an assertion on a model of a path that passed symbolically: a genuine
+                        # (natively reproducible) violation, and a sign that the encoding lost something on this path
+                        res['notes'].append('encoding gap: native run of a solver model failed where the symbolic path passed')
+                        e.failures.append(core.Failure('native run of a solver-generated input violates: ' + n.failures[0].label, vals, list(e.choices), list(e.events)))
+                    elif n.crash or n.diverged or sym_obs != nat_obs:
                         res['val_mismatch'].append({'shape': shape, 'values': vals, 'choices': list(e.choices), 'crash': n.crash,
                                                     'native_failures': [f.label for f in n.failures], 'diverged': n.diverged,
                                                     'sym_obs': _jsonable(sym_obs), 'nat_obs': _jsonable(nat_obs)})
